@@ -290,7 +290,9 @@ class Driver:
                 "tmo": int(j.timeout), "info": len(j.info), "ttl": int(j.ttl),
                 "deadline": int(j.deadline or 0), "drop": bool(j.drop),
             })
-        heaps = {ch: sorted(j.serial for j in wq.channel2q.get(ch, [])) for ch in self.channels}
+        # the queue of a channel as the property means it: the unfinished jobs waiting there (whether
+        # a finished job still lingers in the heap until it is preened is an implementation detail)
+        heaps = {ch: sorted(j.serial for j in wq.channel2q.get(ch, []) if not j.done) for ch in self.channels}
         stats = {}
         for ch in self.channels:
             st = wq._channel2count.get(ch, {})
